@@ -333,6 +333,7 @@ class HWorld:
         self.hedger, self.aux = make_hedger(variant, self.derivs, seed)
         self.last = None
         self.trace = []
+        self.access = None      # last evaluation of the hedger's features: (derivative, time step | 'all')
         self.dirty = False
         self.failed = False
 
@@ -366,8 +367,11 @@ class HWorld:
         # hidden state: the training flag (fit leaves the hedger in eval mode) and the *names* of everything
         # stored on the hedger, its model, the derivatives and their underliers (anything cached on an object
         # makes a new abstract state, so its futures are explored rather than merged away)
+        # a ModuleOutput binds in place, so the *bound* feature objects inside it survive from call to call:
+        # which time steps they were last asked for is part of the state (access-order histories)
         hidden = (bool(self.hedger.training), _names(self.hedger), _names(self.hedger.model),
-                  tuple(_names(d) for d in self.derivs), tuple(_names(p) for p in self.prims))
+                  tuple(_names(d) for d in self.derivs), tuple(_names(p) for p in self.prims),
+                  self.access if self.aux else None)
         return (tuple(ds), NAME.get(pd, str(pd)),
                 None if po is None else (tuple(po.shape), NAME.get(po.dtype, str(po.dtype))), bound, hidden)
 
@@ -461,6 +465,10 @@ class HWorld:
             out = {"history": list(hist), "parameters": self.state()}
         else:
             raise KeyError(kind)
+        if kind == "input":
+            self.access = (op[1], op[2])
+        elif kind in ("hedge", "pl", "loss", "price", "fit"):
+            self.access = (op[1], "all")
         self.post = snap_prims(self.prims) if observe else None
         self.last = out
         self.trace.append(op)
@@ -490,7 +498,7 @@ class _Donor:
 
 def make_hedger(variant, derivs, seed):
     """The hedger factory.  Models that hold a derivative are bound to the live ``derivs``."""
-    from pfhedge.features import ModuleOutput, Spot, UnderlierSpot
+    from pfhedge.features import Barrier, ModuleOutput, Spot, UnderlierSpot
     from pfhedge.nn import EntropicRiskMeasure, ExpectedShortfall, Hedger, MultiLayerPerceptron, WhalleyWilmott
     aux = []
     f32 = torch.float32
@@ -507,8 +515,8 @@ def make_hedger(variant, derivs, seed):
         model = generic_linear(3, 1, seed, f32, tag=1)
         crit = ExpectedShortfall(0.5)
     elif variant == "modout":
-        inner = generic_linear(2, 2, seed, f32, tag=2)
-        mo = ModuleOutput(inner, ["moneyness", "time_to_maturity"])
+        inner = generic_linear(4, 2, seed, f32, tag=2)
+        mo = ModuleOutput(inner, ["moneyness", "time_to_maturity", Barrier(1.3, up=True), "max_log_moneyness"])
         aux.append(mo)
         inputs = [mo, "volatility"]
         model = generic_linear(3, 1, seed, f32, tag=3)
@@ -528,7 +536,8 @@ def make_hedger(variant, derivs, seed):
 
 def operations(variant, tier="thorough"):
     """The operation alphabet.  The quick tier uses a covering subset (every operation kind on at least two
-    derivatives, both path counts, both cast directions); the thorough tier the full product."""
+    derivatives, both path counts, both cast directions, get_input at several time steps of one derivative so
+    that non-monotone access orders arise as histories); the thorough tier the full product."""
     nd = len(DERIVS)
     if tier == "quick":
         return [("hedge", 0), ("hedge", 1), ("hedge", 2), ("pl", 0), ("pl", 1),
@@ -537,7 +546,7 @@ def operations(variant, tier="thorough"):
                 ("dto", 0, "float64"), ("dto", 1, "float32"), ("dto", 2, "float64"), ("dto", 0, "float32"),
                 ("loss", 0, 2), ("loss", 1, 3), ("loss", 2, 2), ("price", 0, 3),
                 ("fit", 0, 2), ("fit", 1, 3),
-                ("input", 0, None), ("input", 2, 1)]
+                ("input", 0, None), ("input", 0, 2), ("input", 0, 1), ("input", 2, 1)]
     ops = []
     for i in range(nd):
         ops.append(("hedge", i))
@@ -558,7 +567,7 @@ def operations(variant, tier="thorough"):
     for i in range(nd):
         ops.append(("fit", i, 2))
     for i in range(nd):
-        for t in (None, 1):
+        for t in (None, 0, 1, DERIVS[i][3] - 1):      # non-monotone access orders arise as histories
             ops.append(("input", i, t))
     return ops
 
